@@ -392,6 +392,25 @@ func reifyGetField(
 			return nil
 		}
 
+		// A primitive with defaults: InitDefaults runs on top of the value the
+		// field holds, as it does for structs and maps, not on a zero value
+		// replacing it.
+		if k := fieldType.Kind(); k == reflect.Interface {
+			// an interface type listing InitDefaults is treated like any other
+			// interface: without a setting the value it holds is left alone
+			if err := tryRecursiveValidate(to, opts.opts, opts.validators); err != nil {
+				return raiseValidation(cfg.ctx, cfg.metadata, name, err)
+			}
+			return nil
+		} else if k != reflect.Struct && k != reflect.Map {
+			v := tryInitDefaults(to)
+			if err := tryRecursiveValidate(v, opts.opts, opts.validators); err != nil {
+				return raiseValidation(cfg.ctx, cfg.metadata, name, err)
+			}
+			to.Set(v)
+			return nil
+		}
+
 		// None primitive types always get initialized even if it doesn't implement the
 		// Initializer interface, because nested types might implement the Initializer interface.
 		if value == nil {
